@@ -56,7 +56,8 @@ def judge(ctx, module, cfg, recfile, workers=8, timeout=1500, heap="8g", env=Non
     e = {"VF_RECS": recfile}
     if env:
         e.update(env)
-    res = tlc.run(module, cfg, env=e, workers=workers, timeout=timeout, heap=heap, cont=True, tag=tag)
+    res = tlc.run(module, cfg, env=e, workers=workers, timeout=timeout, heap=heap, cont=True,
+                  tag=(tag + "-%d" % os.getpid()) if tag else None)
     bad = [(v[2], v[3] if len(v) > 3 else None) for v in res["vf"] if len(v) >= 3 and v[1] == "BAD"]
     nviol = len(res["violated"])
     if nviol and not bad:
